@@ -290,7 +290,11 @@ impl<'a> ExpressionEvaluator<'a> {
                     }
                 }
             }
-            _ => unreachable!("Should not reach here when calling the evaluator"),
+            // Sub-queries, aggregates outside an aggregation and `*` inside an expression get this
+            // far for statements the binder accepts; they are errors of the statement.
+            other => Err(EvaluationError::InvalidExpression(format!(
+                "cannot be evaluated in this position: {other:?}"
+            ))),
         }
     }
 
